@@ -167,7 +167,7 @@ def corpus():
 def gen(rng, tier):
     cover = {}
     lines = []
-    nsmall, nbig, npred, nbad, nv = (260, 14, 120, 40, 30) if tier == "quick" else (15000, 700, 8000, 1200, 900)
+    nsmall, nbig, npred, nbad, nv = (500, 24, 250, 60, 40) if tier == "quick" else (15000, 700, 8000, 1200, 900)
     for _ in range(nsmall):
         lines.append(gen_fit(rng, tier, cover, False))
     for _ in range(nbig):
